@@ -8,7 +8,7 @@ from sa.spec import schema_spec as spec
 from .common import analysis, names_in, literals_tested, true_facts, value_sources, resolve_local
 
 PROP = "C11"
-TECHNIQUE = "decision-table / pattern extraction of the full-name rule; sibling exhaustiveness of the three named-type arms by role (name computed, redefinition raise, registration) with CFG ordering; dominance of unknown-reference raises; regex AST comparison; default-kind table extraction against the spec; data-dependence of the decimal guards"
+TECHNIQUE = "decision-table extraction of the full-name rule; provenance of the record namespace by reaching definitions; sibling exhaustiveness of the named-type arms by role with CFG ordering; dominance of unknown-reference raises; regex AST comparison; finite-domain evaluation of the default-kind function on one representative per JSON kind against the spec table; data-dependence of the decimal guards"
 LEVEL_TEXT = (
     "Static analysis of the schema parser: the full-name function must implement dotted-name > explicit namespace (even the empty "
     "one) > enclosing namespace, and the record arm must pass the namespace it computed to its fields; each named-type arm (enum, "
